@@ -420,6 +420,21 @@ func (x *Exec) unknownFuncCall(fr *Frame, st *State, c *ssa.CallCommon, fv Val, 
 			}
 		}
 	}
+	if x.topFC != nil {
+		// a function-typed parameter called by the function under verification: "abstract call param.<name> pure"
+		if pn := paramNameOf(c.Value); pn != "" {
+			key := "param." + pn
+			for _, pat := range x.topFC.Abstract {
+				fs := strings.Fields(pat)
+				if len(fs) >= 3 && fs[0] == "call" && fs[2] == "pure" && fs[1] == key {
+					x.u.Trust(fmt.Sprintf("%s: the function passed as parameter %q is assumed to leave the modelled state unchanged (abstract call … pure)", x.topName, pn))
+					r := x.u.FreshVal("abs", rt)
+					x.u.assumeValExisting(st, r)
+					return r, nil
+				}
+			}
+		}
+	}
 	x.u.Trust("call through an unknown function value: arbitrary result, whole heap havocked")
 	x.havocAllAtCall(fr, st, args)
 	return x.u.FreshVal("dyn", rt), nil
@@ -1056,4 +1071,22 @@ func calleeHasLocal(fn *ssa.Function, name string) bool {
 		}
 	}
 	return false
+}
+
+// paramNameOf: the name of the parameter a called function value comes from (directly, or through the local copy the
+// naive SSA form makes of every parameter); "" otherwise.
+func paramNameOf(v ssa.Value) string {
+	switch t := v.(type) {
+	case *ssa.Parameter:
+		return t.Name()
+	case *ssa.UnOp:
+		if al, ok := t.X.(*ssa.Alloc); ok && al.Comment != "" {
+			for _, p := range al.Parent().Params {
+				if p.Name() == al.Comment {
+					return al.Comment
+				}
+			}
+		}
+	}
+	return ""
 }
